@@ -174,6 +174,11 @@ func (d *stubDesc) genCases(g *Rng, perDesc int) {
 				}
 			}
 		}
+		// the standard error replies of the library obey the oneway flag like every other reply: an unknown method
+		// or undecodable parameters on a oneway call are answered with nothing at all
+		if (c.scenario == "unknown" || c.scenario == "badparams") && strings.HasSuffix(c.rawFrame, "}") && g.Chance(1, 3) {
+			c.rawFrame = c.rawFrame[:len(c.rawFrame)-1] + `,"oneway":true}`
+		}
 		d.cases = append(d.cases, c)
 	}
 }
@@ -432,11 +437,14 @@ func Raw(addr string, frame string) {
 		return
 	}
 	c.Write(append([]byte(frame), 0))
+	// nothing more to send: the service answers (or, for a oneway call, does not) and then closes
+	if u, ok := c.(*net.UnixConn); ok {
+		u.CloseWrite()
+	}
 	c.SetReadDeadline(time.Now().Add(5 * time.Second))
-	buf := make([]byte, 1)
+	buf := make([]byte, 4096)
 	for {
-		n, err := c.Read(buf)
-		if err != nil || (n == 1 && buf[0] == 0) {
+		if _, err := c.Read(buf); err != nil {
 			break
 		}
 	}
